@@ -429,6 +429,23 @@ def run_case(ctx, L, i, case, style):
                 ctx.violation('recover:%s:syntax-only:first-code' % label, 'defect %s parsed without a target CIF: cif_parse -> %d, first reported code %r (then %r), documented %r' % (case.name, res2.rc, first2, [e[0] for e in res2.errors[1:5]], case.code), info)
                 return
             ctx.count('syntax_only_twins_agreeing')
+        if case.klass.startswith('no-block-header'):
+            # "parse into an anonymous block ... the data are available via that name": also when the CIF parsed into
+            # already holds that block - more header-less text joins it
+            more = parsing.parse(L, b'#\\#CIF_2.0\n_joins_the_anonymous_block 7\n', parsing.make_opts(), res.cif, 'accept')
+            codes2 = [e[0] for e in more.errors]
+            rcb, anon = L.get_block(res.cif, '')
+            rcv = None
+            if anon:
+                rcv, v = L.get_value(anon, '_joins_the_anonymous_block')
+                if v:
+                    L.value_free(v)
+                L.container_free(anon)
+            if more.rc != CIF_OK or codes2[:1] != [CIF_NO_BLOCK_HEADER] or rcb != CIF_OK or rcv != CIF_OK:
+                ctx.violation('recover:%s:second-headerless-parse' % label, 'more header-less text parsed into the CIF that already holds the anonymous block: cif_parse -> %d, errors %r, cif_get_block("") -> %d, the new item -> %r'
+                              % (more.rc, codes2[:4], rcb, rcv), info)
+                return
+            ctx.count('second_headerless_parses')
         ctx.count('cases_agreeing')
         ctx.add('classes', case.klass)
         ctx.add('class_positions', label)
@@ -476,7 +493,7 @@ def run(env):
             class_position_pairs=len(res.sets.get('class_positions', ())),
             first_codes_observed=sorted(res.sets.get('first_codes', ())),
             alternative_recovery_observed=res.count('alternative_recovery_observed'),
-            syntax_only_twins_agreeing=res.count('syntax_only_twins_agreeing'), crashes=res.crashes),
+            syntax_only_twins_agreeing=res.count('syntax_only_twins_agreeing'), second_headerless_parses=res.count('second_headerless_parses'), crashes=res.crashes),
         violations=res.violations, inconclusive=inconclusive,
         assumptions=['the recovery table in vp/checks/C12.py is a faithful reading of the @page error_recovery '
                      'documentation', 'an accepted empty loop may or may not survive to the end of the parse'])
